@@ -7,6 +7,7 @@ import (
 	"os/signal"
 	"sort"
 	"syscall"
+	"time"
 
 	. "vcheck/lib"
 )
@@ -60,6 +61,31 @@ func main() {
 		<-sig
 		Cleanup()
 		os.Exit(2)
+	}()
+	// A tree that violates the property usually makes every further case wait for its
+	// watchdogs. Once violations have been collected the run is given a few more minutes
+	// (other classes may still show up) and is then ended with what it has: the verdict
+	// cannot change any more, and the caller's own time limit must not be what ends it.
+	go func() {
+		var first time.Time
+		grace := 3 * time.Minute
+		if c.Thorough() {
+			grace = 20 * time.Minute
+		}
+		for {
+			time.Sleep(time.Second)
+			if c.NViol() == 0 {
+				continue
+			}
+			if first.IsZero() {
+				first = time.Now()
+			}
+			if time.Since(first) > grace {
+				c.Count("run_ended_early_after_violations", 1)
+				Cleanup()
+				c.Finish()
+			}
+		}
 	}()
 	func() {
 		defer func() {
